@@ -272,6 +272,9 @@ def polyglot_case(ctx, mods, files, a, b, failpoint_k=None, clean_events=None, o
     return events
 
 
+VERSION_BODIES = [b"3\n", b"10\n", b"2", b"12", b"9\n", b"100\n", b"3"]
+
+
 def build_real_files(ctx, torch):
     d = os.path.join(ctx.scratch, "real")
     os.makedirs(d, exist_ok=True)
@@ -285,6 +288,12 @@ def build_real_files(ctx, torch):
     torch.save(m.state_dict(), files["legacy"], _use_new_zipfile_serialization=False)
     files["jit"] = os.path.join(d, "model_jit.pt")
     torch.jit.save(torch.jit.script(m), files["jit"])
+    # a scripted module whose operators make torch write a two-digit operator-set version record (gelu: "10")
+    class G(torch.nn.Module):
+        def forward(self, x):
+            return torch.nn.functional.gelu(x)
+    files["jit-gelu"] = os.path.join(d, "model_jit_gelu.pt")
+    torch.jit.save(torch.jit.script(G()), files["jit-gelu"])
     files["tar"] = os.path.join(d, "model_legacy_tar.pth")
     torchfiles.legacy_tar(files["tar"], d)
     files["mar"] = os.path.join(d, "model.mar")
@@ -330,8 +339,14 @@ def run_shard(ctx):
                         if ctx.tier == "quick" and tname == "tar" and i % 3:
                             continue
                         p = os.path.join(d, "syn.zip")
-                        torchfiles.synthetic_zip(p, markers, deep, junk, trailing)
-                        identify_case(ctx, mods, f"syn-{'deep' if deep else 'root'}-{'junk' if junk else 'clean'}-{tname}",
+                        # what the version record says rotates over the numbers real writers produce (torch writes the
+                        # operator-set version: "3\n" for old operators, "10\n" for newer ones; all of them are >= 2)
+                        ver = VERSION_BODIES[i % len(VERSION_BODIES)]
+                        torchfiles.synthetic_zip(p, markers, deep, junk, trailing, version=ver)
+                        if "version" in markers:
+                            ctx.agg.hist("version_record_contents", repr(ver))
+                        identify_case(ctx, mods, f"syn-{'deep' if deep else 'root'}-{'junk' if junk else 'clean'}-{tname}-ver{ver.decode().strip()}" if "version" in markers else
+                                      f"syn-{'deep' if deep else 'root'}-{'junk' if junk else 'clean'}-{tname}",
                                       p, markers=set(markers), at_offset0=not junk)
                         os.remove(p)
     # archive root directories (torch takes them from the file stem) with characters that are ordinary text but not
@@ -390,7 +405,7 @@ def run_shard(ctx):
             continue
         for outname in ("bare", "subdir", "dot", "absolute"):
             polyglot_case(ctx, mods, files, a, b, outname=outname)
-        interesting = {("zip", "jit"), ("jit", "zip"), ("mar", "legacy"), ("legacy", "mar"), ("mar", "tar"), ("tar", "mar"),
+        interesting = {("zip", "jit"), ("jit", "zip"), ("zip", "jit-gelu"), ("jit-gelu", "zip"), ("mar", "legacy"), ("legacy", "mar"), ("mar", "tar"), ("tar", "mar"),
                        ("mar-big", "legacy"), ("tar", "mar-big"),
                        ("text", "zip"), ("zip", "text"), ("zip", "zip2"), ("legacy", "legacy")}
         if ctx.tier == "quick" and (a, b) not in interesting:
